@@ -254,6 +254,12 @@ Section Proofs.
   Proof. split; [apply gzip_uncompress_full | apply gzip_uncompress_prefix]. Qed.
 
 
+  (* --ignore-length: a Content-Length is not believed, the body is everything up to EOF *)
+  Theorem stream_glue_ignore_length o raw ce n wire :
+    gres_view (read_body_il zst zinit zstep zeof zfl o raw ce true (SLength n) wire)
+    = ref_view (reference (select_kind raw ce) wire).
+  Proof. unfold read_body_il, effective. apply stream_glue_close. Qed.
+
   Theorem stream_glue_wire (o : oracle) (raw : bool) (ce : list N) :
     (forall wire,
         gres_view (read_body o raw ce SClose wire) = ref_view (reference (select_kind raw ce) wire))
